@@ -1,6 +1,7 @@
 import WhVerif.Util.Proto
 import WhVerif.Model.C04Json
 import WhVerif.Model.C20
+import WhVerif.Model.C20Files
 namespace WhVerif.Driver.C20
 open Lean WhVerif.Proto WhVerif.C04 WhVerif.C04.Json WhVerif.C20
 
@@ -30,9 +31,77 @@ def ofOptList {α} (f : α → Json) : Option (List α) → Json
   | none => Json.null
   | some l => ofList f l
 
+
+def optStr? (j : Json) : Option (Option String) :=
+  match j with
+  | Json.null => some none
+  | _ => (asStr? j).map some
+
+def fileC? (j : Json) (k : String) : Option FileC :=
+  match j.getObjVal? k with
+  | .ok Json.null => some none
+  | .ok v => (strList? v).map some
+  | _ => some none
+
+def famRun? (j : Json) : Option FamRun := do
+  some ⟨← inst? (← getObj? j "inst"), ← strList? (← getObj? j "members")⟩
+
+def chromF? (j : Json) : Option ChromF := do
+  some ⟨← getStr? j "name", ← getBool? j "selected", ← (← getList? j "families").mapM famRun?,
+        ← (← getList? j "gtChanges").mapM change?⟩
+
+def ofFileC : FileC → Json
+  | none => Json.null
+  | some l => ofList Json.str l
+
+def pedLine? (j : Json) : Option PedLine := do
+  match ← asArr? j with
+  | [c, f, m] => some ⟨← asStr? c, ← optStr? f, ← optStr? m⟩
+  | _ => none
+
+def ofFamily (f : Family) : Json :=
+  Json.mkObj [("rep", Json.str f.rep), ("members", ofList Json.str f.members),
+              ("trios", ofList (fun t => Json.arr #[Json.str t.father, Json.str t.mother, Json.str t.child]) f.trios)]
+
+/-- `c20.files`, `c20.families`, `c20.order` -/
+def handleFiles (op : String) (j : Json) : Option Json :=
+  if op == "c20.files" then
+    let parsed : Option (Opts × Fix × Pre × List ChromF) := do
+      let oj ← getObj? j "opts"
+      let o : Opts := ⟨← getBool? oj "readList", ← getBool? oj "gtList", ← getBool? oj "recList", true⟩
+      let pj ← getObj? j "pre"
+      let pre : Pre := ⟨← fileC? pj "read", ← fileC? pj "gt", ← fileC? pj "rec"⟩
+      pure (o, ⟨← getBool? j "createAtStart"⟩, pre, ← (← getList? j "chroms").mapM chromF?)
+    match parsed with
+    | none => some badInput
+    | some (o, fx, pre, chroms) =>
+      let r := runF o fx pre chroms
+      some (Json.mkObj [("read", ofFileC r.read), ("gt", ofFileC r.gt), ("rec", ofFileC r.reco)])
+  else if op == "c20.families" || op == "c20.order" then
+    let parsed : Option (List String × List PedLine) := do
+      pure (← strList? (← getObj? j "samples"), ← (← getList? j "ped").mapM pedLine?)
+    match parsed with
+    | none => some badInput
+    | some (samples, ped) =>
+      if op == "c20.families" then
+        some (Json.mkObj [("kept", ofList (fun t => Json.arr #[Json.str t.father, Json.str t.mother, Json.str t.child])
+                              (keptTrios samples ped)),
+                          ("families", ofList ofFamily (setupFamilies samples (keptTrios samples ped)))])
+      else
+        match (getList? j "chroms").bind (·.mapM (fun e => do
+            match ← asArr? e with
+            | [n, b] => pure (← asStr? n, ← asBool? b)
+            | _ => none)) with
+        | none => some badInput
+        | some chroms =>
+          some (ofList (fun (x : String × List String × List String) =>
+            Json.arr #[Json.str x.1, ofList Json.str x.2.1, ofList Json.str x.2.2]) (processingOrder chroms samples ped))
+  else none
+
 /-- ops of property C20 are named `c20.<name>`; return `none` for ops that are not ours -/
 def handle (op : String) (j : Json) : Option Json :=
-  if op == "c20.rows" then
+  if op == "c20.files" || op == "c20.families" || op == "c20.order" then handleFiles op j
+  else if op == "c20.rows" then
     match (getObj? j "inst").bind inst? with
     | some i => some (Json.mkObj [("read", ofList ofReadRow (readListRows i)), ("rec", ofList ofRecRow (recombRows i)),
                                   ("readErrors", ofNat (i.reads.length - (readListRows i).length))])
